@@ -7,11 +7,14 @@ Three legs:
     recording context object; oracle: asked <= undeclared_variables(false) + globals and, for
     undeclared_variables(true), every asked key is the first segment of a reported name.  The same forms
     go through Expression::undeclared_variables / Expression::eval.
- 2. generated core-fragment programs (tools/proggen.py, with a capture mutation that makes targets collide
-    with the names their right-hand sides read) x contexts: the same oracle on the implementation, and
-    the correspondence with the model: extracted Lang/Meta.v find_undeclared = the engine's report
-    (sets), the interpreter's recorded asks = the engine's recorded asks (sets).
- 3. proof audit of Props/C18.v (undeclared_sound ...).
+ 2. generated programs (tools/proggen.py, with a capture mutation that makes targets collide with the
+    names their right-hand sides read, and an extension mutation that adds slices, attribute / item
+    chains and attribute assignments) x contexts: the same oracle on the implementation, and the
+    correspondence with the model: extracted find_undeclared (Lang/Meta.v) = undeclared_variables(false)
+    and find_undeclared_nested (C18/NMeta.v) = undeclared_variables(true) as sets; the lookups recorded by
+    the error-carrying interpreter (C18/XInterp.v) = the keys recorded by the engine, for renders that
+    finish AND for renders that fail (lookups up to the failure, same error kind).
+ 3. proof audit of Props/C18.v (undeclared_sound for every outcome, nested mode, ...).
 Renders run with debug info off; the lookups of the error-reporting path with debug info on are the
 known finding `debug-info-lookups`, which is re-observed and kept apart from everything else.
 """
@@ -19,6 +22,59 @@ import os, sys, collections, copy
 sys.path.insert(0, os.path.dirname(os.path.dirname(os.path.abspath(__file__))))
 from vlib import *
 import proggen, langenc
+
+# ------------------------------------------------------------------------------------------------
+# two constructs the shared generator / encoder do not have (in-process extensions, see C18/XInterp.v):
+#   ("slice", e, a|None, b|None, c|None)   e[a:b:c]              -> EFilter F_slice e [a; b; c]
+#   ("setattr", x, attr, e)               {% set x.attr = e %}   -> SEmit (EFilter F_setattr e [EVar x])
+# and attribute names are interned (the nested report mentions them)
+# ------------------------------------------------------------------------------------------------
+F_SLICE, F_SETATTR = 100, 101
+
+
+class AttrIntern(dict):
+    def __init__(self, base):
+        super().__init__(base)
+        self.rev = {v: k for k, v in base.items()}
+
+    def get(self, k, default=None):
+        if k not in self:
+            i = 200 + len(self)
+            self[k] = i
+            self.rev[i] = k
+        return self[k]
+
+
+if not isinstance(langenc.ATTRS, AttrIntern):
+    langenc.ATTRS = AttrIntern(langenc.ATTRS)
+    _enc_expr, _enc_stmt = langenc.expr, langenc.stmt
+    _src_expr, _src_stmt = proggen.expr_src, proggen.stmt_src
+
+    def enc_expr(e, N):
+        if e[0] == "slice":
+            out = [15, F_SLICE] + langenc.expr(e[1], N) + [3]
+            for b in e[2:5]:
+                out += [3] if b is None else langenc.expr(b, N)
+            return out
+        return _enc_expr(e, N)
+
+    def enc_stmt(st, N):
+        if st[0] == "setattr":
+            return [1, 15, F_SETATTR] + langenc.expr(st[3], N) + [1, 4, N.id(st[1])]
+        return _enc_stmt(st, N)
+
+    def src_expr(e):
+        if e[0] == "slice":
+            return proggen.expr_src(e[1]) + "[" + ":".join("" if b is None else proggen.expr_src(b) for b in e[2:5]) + "]"
+        return _src_expr(e)
+
+    def src_stmt(st):
+        if st[0] == "setattr":
+            return "{% set " + st[1] + "." + st[2] + " = " + proggen.expr_src(st[3]) + " %}"
+        return _src_stmt(st)
+
+    langenc.expr, langenc.stmt = enc_expr, enc_stmt
+    proggen.expr_src, proggen.stmt_src = src_expr, src_stmt
 
 # ------------------------------------------------------------------------------------------------
 # construct-level search
@@ -195,6 +251,8 @@ def idents_in_expr(e, acc):
         idents_in_expr(e[2], acc); [idents_in_expr(a, acc) for a in e[3]]
     elif t == "call":
         acc.add(e[1]); [idents_in_expr(a, acc) for a in e[2]]; [idents_in_expr(v, acc) for _, v in e[3]]
+    elif t == "slice":
+        [idents_in_expr(b, acc) for b in e[1:5] if b is not None]
 
 
 def rename_expr(e, mp):
@@ -212,6 +270,7 @@ def rename_expr(e, mp):
     if t == "filter": return ("filter", e[1], R(e[2]), [R(a) for a in e[3]])
     if t == "test": return ("test", e[1], R(e[2]), [R(a) for a in e[3]], e[4])
     if t == "call": return ("call", mp.get(e[1], e[1]), [R(a) for a in e[2]], [(k, R(v)) for k, v in e[3]])
+    if t == "slice": return ("slice", R(e[1])) + tuple(None if b is None else R(b) for b in e[2:5])
     return e
 
 
@@ -236,6 +295,7 @@ def rename_stmt(s, mp):
     if t == "callblock": return ("callblock", N(s[1]), [E(a) for a in s[2]], B(s[3]))
     if t == "filterblock": return ("filterblock", s[1], B(s[2]))
     if t == "autoescape": return ("autoescape", E(s[1]), B(s[2]))
+    if t == "setattr": return ("setattr", N(s[1]), s[2], E(s[3]))
     return s
 
 
@@ -266,6 +326,8 @@ def read_names(body, acc):
         elif t == "callblock":
             acc.add(s[1]); [idents_in_expr(a, acc) for a in s[2]]
         elif t == "autoescape": idents_in_expr(s[1], acc)
+        elif t == "setattr":
+            acc.add(s[1]); idents_in_expr(s[3], acc)
         for b in proggen._sub_bodies(s):
             read_names(b, acc)
 
@@ -288,6 +350,61 @@ def capture_mutation(body, rng):
     return rename_body(body, mp) if mp else body
 
 
+def map_exprs(body, fe):
+    """applies fe to every expression position of a statement list (top of each expression)"""
+    out = []
+    for st in body:
+        t = st[0]
+        B = lambda b: map_exprs(b, fe)
+        if t == "emit": st = ("emit", fe(st[1], "any"))
+        elif t == "if": st = ("if", [(fe(c, "any"), B(b)) for c, b in st[1]], None if st[2] is None else B(st[2]))
+        elif t == "for": st = ("for", st[1], fe(st[2], "list"), None if st[3] is None else fe(st[3], "any"), B(st[4]), None if st[5] is None else B(st[5]), st[6])
+        elif t == "set": st = ("set", st[1], fe(st[2], "any"))
+        elif t == "setblock": st = ("setblock", st[1], B(st[2]), st[3])
+        elif t == "with": st = ("with", [(n, fe(e, "any")) for n, e in st[1]], B(st[2]))
+        elif t == "macro": st = ("macro", st[1], st[2], [(p, fe(d, "any")) for p, d in st[3]], B(st[4]))
+        elif t == "callblock": st = ("callblock", st[1], [fe(a, "any") for a in st[2]], B(st[3]))
+        elif t == "filterblock": st = ("filterblock", st[1], B(st[2]))
+        elif t == "autoescape": st = ("autoescape", st[1], B(st[2]))
+        out.append(st)
+    return out
+
+
+def extension_mutation(body, rng):
+    """Slices of list expressions, attribute / item chains on variables, attribute assignments."""
+    def bound(r):
+        c = r.below(6)
+        if c == 0: return None
+        if c == 1: return ("var", r.choice(["n", "m", "undef1"]))
+        return ("int", r.choice([0, 1, 2, -1, 5]))
+
+    def fe(e, kind):
+        t = e[0]
+        if kind == "list" and rng.chance(1, 2):
+            step = None if rng.chance(2, 3) else ("int", rng.choice([1, 2, -1, 0]))
+            return ("slice", e, bound(rng), bound(rng), step)
+        if t == "var" and e[1] not in ("loop",) and rng.chance(1, 5):
+            c = rng.below(4)
+            if c == 0: return ("attr", e, rng.choice(["foo", "bar"]))
+            if c == 1: return ("attr", ("attr", e, "foo"), rng.choice(["bar", "baz"]))
+            if c == 2: return ("item", e, ("int", rng.choice([0, 1])))
+            return ("filter", "default", ("attr", e, "foo"), [("int", 4)])
+        if t == "filter" and e[1] == "length" and rng.chance(1, 2):
+            return ("filter", "length", fe(e[2], "list"), e[3])
+        if t in ("neg", "not"): return (t, fe(e[1], "any"))
+        if t == "bin": return ("bin", e[1], fe(e[2], "any"), fe(e[3], "any"))
+        if t in ("and", "or"): return (t, fe(e[1], "any"), fe(e[2], "any"))
+        if t == "ifexpr": return ("ifexpr", fe(e[1], "any"), fe(e[2], "any"), None if e[3] is None else fe(e[3], "any"))
+        if t == "cmp": return ("cmp", fe(e[1], "any"), [(o, fe(r, "list" if o in ("in", "notin") else "any")) for o, r in e[2]])
+        return e
+    body = map_exprs(body, fe)
+    if rng.chance(1, 6):
+        i = rng.below(len(body) + 1)
+        tgt = rng.choice(["n", "s", "undef2", "ns"])
+        body = body[:i] + [("setattr", tgt, rng.choice(["a", "b"]), ("var", rng.choice(["m", "undef0"])) if rng.chance(1, 2) else ("int", 1))] + body[i:]
+    return body
+
+
 def gen_programs(chk, n):
     progs = []
     for j in range(n):
@@ -296,6 +413,8 @@ def gen_programs(chk, n):
         body = g.template(kinds)
         if chk.rng.chance(2, 3):
             body = capture_mutation(body, chk.rng)
+        if chk.rng.chance(1, 2):
+            body = extension_mutation(body, chk.rng)
         if chk.rng.chance(1, 5):
             ctx = {k: v for k, v in ctx.items() if chk.rng.chance(1, 2)}
         progs.append((body, ctx))
@@ -303,19 +422,23 @@ def gen_programs(chk, n):
 
 
 def decode_model(m, N):
-    """-> (status, rendered text|None, asks|None, undeclared names, undeclared by the old tracker)"""
+    """-> dict(status ok|err|bad, text, code, asks, und, old, nested)"""
     def names(ids):
         return sorted(set(N.rev.get(i, "#%d" % i) for i in ids))
     if m[:1] == [0]:
-        no = m[1]; text = "".join(chr(c) for c in m[2:2 + no]); rest = m[2 + no:]
-        na = rest[0]; asks = rest[1:1 + na]; rest = rest[1 + na:]
+        no = m[1]; text = "".join(chr(c) for c in m[2:2 + no]); rest = m[2 + no:]; code = None; st = "ok"
     elif m[:1] == [1]:
-        text = None; asks = None; rest = m[2:]
+        text = None; code = m[1]; rest = m[2:]; st = "err"
     else:
-        return ("bad", None, None, None, None)
+        return {"status": "bad"}
+    na = rest[0]; asks = rest[1:1 + na]; rest = rest[1 + na:]
     nu = rest[0]; und = rest[1:1 + nu]; rest = rest[1 + nu:]
-    no = rest[0]; old = rest[1:1 + no]
-    return ("ok" if asks is not None else "err", text, None if asks is None else names(asks), names(und), names(old))
+    no = rest[0]; old = rest[1:1 + no]; rest = rest[1 + no:]
+    nn = rest[0]; rest = rest[1:]; nested = []
+    for _ in range(nn):
+        v, k = rest[0], rest[1]; attrs = rest[2:2 + k]; rest = rest[2 + k:]
+        nested.append(".".join([N.rev.get(v, "#%d" % v)] + [langenc.ATTRS.rev.get(a, "#%d" % a) for a in attrs]))
+    return {"status": st, "text": text, "code": code, "asks": names(asks), "und": names(und), "old": names(old), "nested": sorted(set(nested))}
 
 
 def count_nodes(body):
@@ -343,8 +466,9 @@ def main():
         "the recording context object of harness/src/bin/c18.rs (Object::get_value) sees exactly the keys the engine asks the render context for"]
     chk.assumptions = [
         "single-file templates (no include/import/extends); renders with debug info off (Environment::set_debug(false)) - see known finding debug-info-lookups for the error-reporting path with debug info on",
-        "theorem: core fragment of Lang/Syntax.v (expressions, if/elif/else, for with filter/else/break/continue, set, set-block, with, macros with defaults/kwargs/caller, call blocks, filter blocks, autoescape), context values without macro objects, renders that finish (Ok) - the interpreter does not keep the lookups of a failed render",
-        "constructs outside the Coq fragment (slices, attribute assignment, tuples/maps, tests/filters with arguments, do, blocks, self/super, namespace, splats) are covered on the implementation only, by the construct-level search"]
+        "theorems: programs over Lang/Syntax.v (expressions incl. slices, if/elif/else, for with filter/else/break/continue, set, attribute assignment, set-block, with, macros with defaults/kwargs/caller, call blocks, filter blocks, autoescape), context values without macro objects, every outcome of the render (finished or failed; the model's own out-of-gas excluded)",
+        "the model has no namespace objects: an attribute assignment always fails after evaluating its operands, as the engine does for every target that is not a namespace; slices select like Python on lists and strings (C09)",
+        "constructs outside the Coq model (tuples/maps, tests/filters with arguments other than the modelled ones, do, blocks, self/super, namespace(), splats) are covered on the implementation only, by the construct-level search"]
     okm, blog = build_models("C18")
     proofs_ok = chk.run_proofs()
     okc, clog = cargo_build(["c18"], release=False)
@@ -469,21 +593,31 @@ def main():
         n_eval += len(impl) + (len(impl_dbg) if impl_dbg else 0)
         for i, r in enumerate(impl):
             mm = missing_of(r)
-            st, mtext, masks, mund, mold = decode_model(model[i], NN[i])
+            dm = decode_model(model[i], NN[i])
+            st = dm["status"]
             if mm is None or st == "bad":
                 if not rel:
                     hist["program_not_compared"] += 1
                 continue
+            mund, mold = dm["und"], dm["old"]
             if mm[0] or mm[1]:
                 direct.append((i, rel, mm))
             if sorted(r["flat"]) != mund:
                 corr_bad.append((i, rel, "static report differs", r["flat"], mund))
-            elif st == "ok" and r["render"].get("ok") == mtext:
-                if r["asked"] != masks:
-                    corr_bad.append((i, rel, "recorded lookups differ", r["asked"], masks))
+            elif sorted(r["nested"]) != dm["nested"]:
+                corr_bad.append((i, rel, "nested report differs", r["nested"], dm["nested"]))
+            elif st == "ok" and r["render"].get("ok") == dm["text"]:
+                if r["asked"] != dm["asks"]:
+                    corr_bad.append((i, rel, "recorded lookups differ", r["asked"], dm["asks"]))
                 elif not rel:
                     hist["program_lookups_compared"] += 1
-            elif not rel and not (st == "err" and r["render"].get("err") == model[i][1]):
+            elif st == "err" and r["render"].get("err") == dm["code"]:
+                # both renders fail with the same kind of error: the lookups up to the failure must agree
+                if r["asked"] != dm["asks"]:
+                    corr_bad.append((i, rel, "recorded lookups of a failing render differ", r["asked"], dm["asks"]))
+                elif not rel:
+                    hist["program_failing_lookups_compared"] += 1
+            elif not rel:
                 hist["program_semantics_diverge(C03 matter: ill-typed after renaming)"] += 1
             if not rel:
                 hist["program_render_" + ("ok" if "ok" in r["render"] else "err")] += 1
@@ -506,8 +640,8 @@ def main():
     chk.cov["distinct_nontrivial"] = len(nontriv)
     chk.cov["rule"] = ("leg 1: every statement position x expression form x bound name (x, loop; self/super/caller/... for a subset of forms) x 2-3 contexts, "
                        "rendered by the engine with a recording context (quick: debug build; thorough: debug+release) and through the Expression API; "
-                       "leg 2: typed random core-fragment programs with capture mutation x random contexts in debug and release (and once with debug info on), "
-                       "compared with the extracted analysis and interpreter; non-trivial = distinct (template, context) that compiled and whose render asked the context for at least one key (programs: >= 3 statement nodes)")
+                       "leg 2: typed random programs with capture mutation and extension mutation (slices, attribute/item chains, attribute assignments) x random contexts in debug and release (and once with debug info on), "
+                       "compared with the extracted flat and nested analyses and with the lookups of the extracted error-carrying interpreter, for finished and for failing renders; non-trivial = distinct (template, context) that compiled and whose render asked the context for at least one key (programs: >= 3 statement nodes)")
     chk.cov["samples"] = [cc[0][4], cc[len(cc) // 3][4], cc[2 * len(cc) // 3][4], preqs[0]["tpl"], preqs[len(preqs) // 2]["tpl"]]
     chk.cov["distribution"] = {"outcomes": dict(hist), "constructs_in_programs": dict(kinds)}
     chk.cov["programs"] = len(progs)
